@@ -46,20 +46,31 @@ impl<'a, I: HInput<'a>, E: HErr<'a, I>> chumsky::extension::v1::ExtParser<'a, I,
     // Both entry points keep a 36 KiB scratch buffer alive across the call of the wrapped parser: a level of a recursive grammar
     // that goes through an extension parser needs that much stack (between two stack-growth checks of `recursive`), which the
     // growth check's red zone (64 KiB) must cover.
+    // (three sizes in rotation, so that the ends of the stack segments are met at varying offsets)
     fn parse(&self, inp: &mut InputRef<'a, '_, I, Ex<E>>) -> Result<Val, E> {
-        let mut scratch = [0u8; 36 * 1024];
-        scratch[0] = 1;
-        let r = inp.parse(&self.0);
-        std::hint::black_box(&scratch);
-        r
+        match FAT.fetch_add(1, std::sync::atomic::Ordering::Relaxed) % 3 {
+            0 => fat::<{ 36 * 1024 }, _>(|| inp.parse(&self.0)),
+            1 => fat::<{ 44 * 1024 }, _>(|| inp.parse(&self.0)),
+            _ => fat::<{ 40 * 1024 }, _>(|| inp.parse(&self.0)),
+        }
     }
     fn check(&self, inp: &mut InputRef<'a, '_, I, Ex<E>>) -> Result<(), E> {
-        let mut scratch = [0u8; 36 * 1024];
-        scratch[0] = 1;
-        let r = inp.check(&self.0);
-        std::hint::black_box(&scratch);
-        r
+        match FAT.fetch_add(1, std::sync::atomic::Ordering::Relaxed) % 3 {
+            0 => fat::<{ 36 * 1024 }, _>(|| inp.check(&self.0)),
+            1 => fat::<{ 44 * 1024 }, _>(|| inp.check(&self.0)),
+            _ => fat::<{ 40 * 1024 }, _>(|| inp.check(&self.0)),
+        }
     }
+}
+
+static FAT: std::sync::atomic::AtomicUsize = std::sync::atomic::AtomicUsize::new(0);
+#[inline(never)]
+fn fat<const N: usize, R>(f: impl FnOnce() -> R) -> R {
+    let mut scratch = [0u8; N];
+    scratch[0] = 1;
+    let r = f();
+    std::hint::black_box(&scratch);
+    r
 }
 
 /// The grammar cannot be built for this input kind (result `UNSUPPORTED`); the text says why.
